@@ -45,6 +45,15 @@ def _maybeAttribute(cls: model.Class, name: str) -> bool:
     return obj is None or isinstance(obj, model.Attribute)
 
 
+def _isLiteral(expr: ast.expr) -> bool:
+    """Whether the expression is a Python literal (as accepted by L{ast.literal_eval})."""
+    try:
+        ast.literal_eval(expr)
+    except (ValueError, TypeError, SyntaxError, MemoryError, RecursionError):
+        return False
+    return True
+
+
 def _handleAliasing(
         ctx: model.CanContainImportsDocumentable,
         target: str,
@@ -623,7 +632,10 @@ class ModuleVistor(NodeVisitor):
             ) -> None:
         cls = self.builder.current
         assert isinstance(cls, model.Class)
-        if not _maybeAttribute(cls, name):
+        if not _maybeAttribute(cls, name) and not (
+                name not in cls.contents and expr is not None and _isLiteral(expr)):
+            # A literal cannot wrap the inherited method or class it shadows:
+            # the class really has this attribute.
             return
 
         # Class variables can only be Attribute, so it's OK to cast
